@@ -230,6 +230,29 @@ theorem subConnState_same (s : St) (sc : Nat) (x : ConnState) (l : Bool) :
         split <;> rfl
     · simp
 
+theorem nscEnd_same (s : St) (sc : Nat) :
+    (nscEnd s sc).1.current.map key = s.current.map key ∧
+    (nscEnd s sc).1.pending.map key = s.pending.map key ∧
+    (nscEnd s sc).1.serial = s.serial ∧ (nscEnd s sc).1.closed = s.closed ∧
+    (nscEnd s sc).1.pushed = s.pushed := by
+  simp only [nscEnd]
+  split
+  · simp
+  · split
+    · refine ⟨?_, ?_, rfl, rfl, rfl⟩ <;>
+      · simp only [Option.map_map]
+        congr 1
+        funext w
+        simp only [Function.comp, addSc, key]
+        split <;> rfl
+    · simp
+
+theorem nscEnd_noPush (s : St) (sc : Nat) (o : Nat) (b : BState) : Ev.push o b ∉ (nscEnd s sc).2 := by
+  simp only [nscEnd]
+  split
+  · simp
+  · split <;> simp
+
 theorem inv_subConnState (s : St) (h : Inv s) (sc : Nat) (x : ConnState) (l : Bool) :
     Inv (subConnState s sc x l).1 := by
   obtain ⟨a, b, c, d, e⟩ := subConnState_same s sc x l
@@ -872,6 +895,15 @@ theorem stepOK_step (s : St) (h : Inv s) (op : Op) : StepOK s (step s op).1 (ste
     simp only [step]
     obtain ⟨a, b, c, d, e⟩ := newSubConn_same s child
     exact stepOK_same s _ h _ a b c d e (newSubConn_noPush s child)
+  | nscb child =>
+    simp only [step, nscBegin]
+    split
+    · exact same _ (by intro o b hm; simp at hm)
+    · exact stepOK_same s _ h _ rfl rfl rfl rfl rfl (by intro o b hm; simp at hm)
+  | nsce sc =>
+    simp only [step]
+    obtain ⟨a, b, c, d, e⟩ := nscEnd_same s sc
+    exact stepOK_same s _ h _ a b c d e (nscEnd_noPush s sc)
   | scst sc x =>
     simp only [step]
     obtain ⟨a, b, c, d, e⟩ := subConnState_same s sc x true
@@ -1016,6 +1048,8 @@ theorem step_closed (s : St) (op : Op) (hcl : s.closed = true) : (step s op).1.c
   | close => simp [step]
   | st child x => simp only [step]; rw [(updateState_frame s child x).2.1]; exact hcl
   | nsc child => simp only [step]; rw [(newSubConn_same s child).2.2.2.1]; exact hcl
+  | nscb child => simp only [step, nscBegin]; split <;> exact hcl
+  | nsce sc => simp only [step]; rw [(nscEnd_same s sc).2.2.2.1]; exact hcl
   | scst sc x => simp only [step]; rw [(subConnState_same s sc x true).2.2.2.1]; exact hcl
   | uscs sc x => simp only [step]; rw [(subConnState_same s sc x false).2.2.2.1]; exact hcl
   | scsd sc => simp [step, hcl]
